@@ -414,6 +414,11 @@ func structsEqual(x, y any) (err error) {
 			}
 		}
 
+		if !xvf.CanInterface() || !yvf.CanInterface() {
+			// unexported fields are skipped
+			continue
+		}
+
 		err = valuesEqual(xvf.Interface(), yvf.Interface())
 	}
 
